@@ -214,7 +214,13 @@ def gen_history(rng, nsteps, forced_bad=None):
                 steps.append({"op": op, "dim": d, "i": i, "label": newl[i], "via": via})
             else:
                 newl = fresh_labels(rng, k, len(l), sim)
-                steps.append({"op": op, "dim": d, "labels": newl, "kind": k, "form": rng.choice(['list', 'array', 'dict', 'callable']), "by_pos": rng.random() < 0.5})
+                st_ = {"op": op, "dim": d, "labels": newl, "kind": k, "form": rng.choice(['list', 'array', 'dict', 'callable']), "by_pos": rng.random() < 0.5}
+                ks = [q for q in keys_now if d in sim.vars[q]]
+                if op == 'relabel_attr' and ks and rng.random() < 0.5:
+                    # the whole axis relabelled through one of the variables that has it
+                    st_["via"] = rng.choice(ks)
+                    st_["via_form"] = rng.choice(['attr', 'labels', 'set_axis', 'axis_slice'])
+                steps.append(st_)
             if op != 'set_axis_copy':
                 sim.axes[d] = (newl, k)
         elif op in ('dims', 'dims_permute'):
@@ -264,7 +270,7 @@ def gen_history(rng, nsteps, forced_bad=None):
             steps.append({"op": "append_axis", "name": name, "labels": l, "kind": k})
             sim.axes[name] = (l, k)
             direct.add(name)
-    return {"start": start, "steps": steps}
+    return {"start": start, "steps": steps, "join_option": rng.random() < 0.3}
 
 
 def cases(desc):
@@ -367,7 +373,13 @@ def check(case, ctx):
         where = "step %d (%s) of history %s" % (si, codec.short({k: v for k, v in st.items() if k not in ('array', 'arrays')}, 160), hist[-6:])
         if op == 'ctor':
             arrs = {k: gen.build(sp) for k, sp in st["arrays"].items()}
-            ds, exc = ctx.call("Dataset(**arrays) " + where, lambda: da.Dataset(**arrs), operands=tuple(arrs.values()))
+            if case.get("join_option"):
+                # the statement says outer join, whatever the (documented but so far unused) option 'align.join' holds
+                ctx.outcomes['ctor-under-align.join=inner'] += 1
+                with common.options(**{'align.join': 'inner'}):
+                    ds, exc = ctx.call("Dataset(**arrays) with option align.join='inner' " + where, lambda: da.Dataset(**arrs), operands=tuple(arrs.values()))
+            else:
+                ds, exc = ctx.call("Dataset(**arrays) " + where, lambda: da.Dataset(**arrs), operands=tuple(arrs.values()))
             if exc is not None:
                 ctx.v(ID, "ctor-raised:" + type(exc).__name__, "Dataset(**arrays) with labels %s raised %s: %s" % (
                     codec.short({k: sp["labels"] for k, sp in st["arrays"].items()}, 200), type(exc).__name__, str(exc)[:150]))
@@ -495,7 +507,24 @@ def check(case, ctx):
         elif op in ('relabel_attr', 'set_axis_values', 'axes_setitem', 'set_axis_copy'):
             d, labs, k = st["dim"], st["labels"], st["kind"]
             arrl = gen.np_labels(labs, k)
-            if op == 'relabel_attr':
+            if op == 'relabel_attr' and st.get("via"):
+                var_ = dict.__getitem__(ds, st["via"])
+                vf = st["via_form"]
+                newv = arrl if st["form"] == 'array' else list(labs)
+                ctx.outcomes['relabel-whole-axis-via-variable'] += 1
+                if vf == 'attr':
+                    def fn():
+                        setattr(var_, d, newv)
+                elif vf == 'labels':
+                    def fn():
+                        var_.labels = tuple(newv if q == d else var_.axes[q].values for q in var_.dims)
+                elif vf == 'set_axis':
+                    def fn():
+                        var_.set_axis(newv, axis=d)
+                else:
+                    def fn():
+                        var_.axes[d][:] = newv
+            elif op == 'relabel_attr':
                 def fn():
                     setattr(ds, d, arrl if st["form"] == 'array' else list(labs))
             elif op == 'axes_setitem':
